@@ -22,6 +22,9 @@ def _mk(n, vkind):
     if vkind == 'uint':
         hm.with_uint_values(32)
         des = lambda s: s.load_uint(32)
+    elif vkind == 'int':
+        hm.with_int_values(33)
+        des = lambda s: s.load_int(33)
     elif vkind == 'coins':
         hm.with_coins_values()
         des = lambda s: s.load_coins()
@@ -39,6 +42,8 @@ def _val(vkind, v):
     from pytoniq_core.boc.address import Address
     if vkind in ('uint', 'coins'):
         return v & 0xFFFFFFFF, v & 0xFFFFFFFF
+    if vkind == 'int':
+        return (v & 0xFFFFFFFF) - (1 << 31), (v & 0xFFFFFFFF) - (1 << 31)
     if vkind == 'addr':
         h = (v & 0xFFFFFFFF).to_bytes(32, 'big')
         return Address((v % 5 - 2, h)), (v % 5 - 2, h.hex())
@@ -65,6 +70,10 @@ def _keyform(form, n, k):
         return '0' * (1 + k % 9) + format(k, '0%db' % n), {}
     if form == 'bits-short':   # int(key, 2) semantics: leading zeros may be left out
         return format(k, 'b'), {}
+    if form == 'keyser':   # HashMap(n, key_serializer=f): the caller's key object goes through f, which returns the int
+        return ('key', k), {}
+    if form == 'hashed':   # n == 256: the key is sha256 of the text (hash_key=True)
+        return 'name-%d' % k, {'hash_key': True}
     if form == 'address':  # n == 267, k encodes (wc, hash)
         return Address(((k >> 256) % 256 - 128, (k % (1 << 256)).to_bytes(32, 'big'))), {}
     raise ValueError(form)
@@ -74,6 +83,9 @@ LOOSE_FORMS = ('bytes-ceil', 'bytes-long', 'bits-long', 'bits-short')
 
 
 def _intkey(form, n, k):
+    if form == 'hashed':
+        import hashlib
+        return int.from_bytes(hashlib.sha256(('name-%d' % k).encode()).digest(), 'big')
     if form == 'address':
         wc = (k >> 256) % 256 - 128
         return (0b100 << 264) | ((wc & 0xFF) << 256) | (k % (1 << 256))
@@ -85,6 +97,8 @@ def _overflows(n, model, vkind):
     def vbits(v):
         if vkind == 'uint':
             return 32
+        if vkind == 'int':
+            return 33
         if vkind == 'coins':
             return 4 + 8 * ((v.bit_length() + 7) // 8)
         if vkind == 'addr':
@@ -132,6 +146,8 @@ def check(case):
     n, vkind, form = case['n'], case['v'], case['form']
     pairs = case['pairs']
     hm, des = _mk(n, vkind)
+    if form == 'keyser':
+        hm.key_serializer = lambda key: key[1]
     model = {}
     for k, v in pairs:
         key, kw = _keyform(form, n, k)
@@ -172,6 +188,10 @@ def check(case):
         'load_dict@offset': lambda: _after_prefix(cell).load_dict(n, value_deserializer=des),
         'preload_dict@offset': lambda: _after_prefix(cell).preload_dict(n, value_deserializer=des),
     }
+    kd = lambda bits: ('k', int(bits, 2), len(bits))
+    undo = lambda d: {k[1]: v for k, v in d.items()} if all(isinstance(k, tuple) and len(k) == 3 and k[0] == 'k' and k[2] == n for k in d) else d
+    readers['load_hashmap+key_deserializer'] = lambda: undo(cell.begin_parse().load_hashmap(n, kd, des))
+    readers['load_dict+key_deserializer'] = lambda: undo(Builder().store_dict(cell).end_cell().begin_parse().load_dict(n, kd, des))
     if len(cell.bits) + 5 <= 1023 and len(cell.refs) + 2 <= 4:
         # the root edge stored inline (`Hashmap n X`, as in validators#11) after fields the caller has already read
         readers['load_hashmap@inline-after-consumed-refs'] = lambda: _inline_after_prefix(cell).load_hashmap(n, value_deserializer=des)
@@ -195,6 +215,8 @@ def check(case):
     # insertion-order independence: reversed and rotated orders give the same cell hash
     for variant in (list(reversed(pairs)), pairs[len(pairs) // 2:] + pairs[:len(pairs) // 2]):
         hm2, _ = _mk(n, vkind)
+        if form == 'keyser':
+            hm2.key_serializer = lambda key: key[1]
         last = {}
         for k, v in variant:
             last[k] = v
@@ -262,16 +284,18 @@ WIDTHS = [1, 2, 3, 4, 5, 6, 7, 8, 15, 16, 32, 64, 256, 267, 1023]
 @st.composite
 def st_case(draw):
     n = draw(st.one_of(st.sampled_from(WIDTHS), st.integers(1, 1023)))
-    vkind = draw(st.sampled_from(['uint', 'coins', 'cell', 'addr']))
-    forms = ['int', 'bits'] + (['bytes'] if n % 8 == 0 else []) + (['address'] if n == 267 else [])
+    vkind = draw(st.sampled_from(['uint', 'coins', 'cell', 'addr', 'int']))
+    forms = ['int', 'bits', 'keyser'] + (['bytes'] if n % 8 == 0 else []) + (['address'] if n == 267 else []) + (['hashed', 'hashed'] if n == 256 else [])
     form = draw(st.sampled_from(forms + forms + list(LOOSE_FORMS)))
     # leaf must fit in a cell: label (<= n + ~12 bits) + value; addresses take 267 bits
-    vbits = {'uint': 32, 'coins': 36, 'cell': 0, 'addr': 267}[vkind]
+    vbits = {'uint': 32, 'coins': 36, 'cell': 0, 'addr': 267, 'int': 33}[vkind]
     if n + 12 + vbits > 1023 and draw(st.integers(0, 9)):
         vkind = 'cell'  # mostly keep leaves within a cell; the rest is the 'overflow' class (must raise like TON)
     cnt = draw(st.integers(0, 40 if n > 5 else min(40, 1 << n)))
     if form == 'address':
         keyst = st.integers(0, (1 << 264) - 1)
+    elif form == 'hashed':
+        keyst = st.integers(0, 50)
     else:
         # clustered keys: share prefixes
         base = draw(st.integers(0, (1 << n) - 1))
